@@ -89,6 +89,8 @@ type gen struct {
 	// probability controls
 	nullP int // out of 10
 	wide  bool
+	// declared enum value lists handed to earlier constructions (the slices themselves, to be reused)
+	declPool [][]string
 }
 
 func (g *gen) genInt() int {
@@ -396,6 +398,11 @@ func (g *gen) genEnumDecl(d []*string, malformed bool) []string {
 	if r.P(1, 3) {
 		return nil // derive values from the data
 	}
+	if len(g.declPool) > 0 && r.P(1, 4) {
+		// the very same slice that declared an earlier column (callers keep one declaration and use it for many frames);
+		// when the data does not fit it the construction fails, which must leave the earlier columns alone
+		return g.declPool[r.Intn(len(g.declPool))]
+	}
 	seen := map[string]bool{}
 	vals := []string{}
 	for _, s := range d {
@@ -420,6 +427,7 @@ func (g *gen) genEnumDecl(d []*string, malformed bool) []string {
 	if len(vals) == 0 {
 		return nil
 	}
+	g.declPool = append(g.declPool, vals)
 	return vals
 }
 
